@@ -10,18 +10,28 @@ From DG Require Import CaseFormat ProtoWireRef ProtoSpecLen ProtoMsg Json Num J2
 Import ListNotations.
 Local Open Scope Z_scope.
 
-(* REFINEMENT (partial: schemas without map fields — see the comment at sax_refines_spec_partial in J2PProofs.v).
-   The SAX machine as coded, run over the event stream of a document of the strict domain nested at most to the
-   converter's stack limit, yields exactly encode_msg of the denoted message: all tags, packed runs and length
-   prefixes at every depth and for every size, whatever the spare capacity of the buffer contains. *)
-Theorem C09_sax_refines_spec_partial :
+(* REFINEMENT.  The SAX machine as coded, run over the event stream of a document of the strict domain nested at most
+   to the converter's stack limit (256 frames: one per message / list level, two per map level), yields exactly
+   encode_msg of the denoted message: all tags, packed runs, map pairs and length prefixes at every depth and for every
+   size, whatever the spare capacity of the buffer contains. *)
+Theorem C09_sax_refines_spec :
+  forall disallow S root ms m junk,
+  (9 <= List.length junk)%nat ->
+  denote_top true disallow S root (JObj ms) = ROk m ->
+  (json_depth (JObj ms) <= 128)%nat ->
+  sax_run disallow S root junk (events (JObj ms)) = OOk (encode_msg m).
+Proof. exact sax_refines_spec. Qed.
+Print Assumptions C09_sax_refines_spec.
+
+(* without map fields every level costs one frame: nesting up to 256 *)
+Theorem C09_sax_refines_spec_nomap :
   forall disallow S root ms m junk,
   nomap_schema S = true -> (9 <= List.length junk)%nat ->
   denote_top true disallow S root (JObj ms) = ROk m ->
   (json_depth (JObj ms) <= 256)%nat ->
   sax_run disallow S root junk (events (JObj ms)) = OOk (encode_msg m).
-Proof. exact sax_refines_spec_partial. Qed.
-Print Assumptions C09_sax_refines_spec_partial.
+Proof. exact sax_refines_spec_nomap. Qed.
+Print Assumptions C09_sax_refines_spec_nomap.
 
 (* the strict domain lies inside the property's domain and denotes the same message there *)
 Theorem C09_strict_in_domain :
@@ -39,15 +49,15 @@ Proof. exact j2p_output_decodes. Qed.
 Print Assumptions C09_j2p_output_decodes.
 
 (* machine output = specified output, and it decodes to the denoted message *)
-Theorem C09_sax_output_decodes_partial :
+Theorem C09_sax_output_decodes :
   forall d S root ms m junk fuel,
-  nomap_schema S = true -> (9 <= List.length junk)%nat ->
+  (9 <= List.length junk)%nat ->
   denote_top true d S root (JObj ms) = ROk m ->
-  (json_depth (JObj ms) <= 256)%nat -> (depth (VMsg m) <= fuel)%nat ->
+  (json_depth (JObj ms) <= 128)%nat -> (depth (VMsg m) <= fuel)%nat ->
   exists b, sax_run d S root junk (events (JObj ms)) = OOk b /\
             j2p_spec d S root (JObj ms) = ROk b /\ decode_msg S fuel root b = Some m.
-Proof. exact sax_refines_spec_partial_decodes. Qed.
-Print Assumptions C09_sax_output_decodes_partial.
+Proof. exact sax_refines_spec_decodes. Qed.
+Print Assumptions C09_sax_output_decodes.
 
 (* a known member whose JSON kind contradicts its field makes the denotation an error (never another message) *)
 Theorem C09_j2p_rejects_kind_mismatch :
@@ -90,14 +100,15 @@ Definition exM := mk_mdesc (asc "M") [mk_fdesc 1 (asc "a") (asc "a") LSingular (
                                        mk_fdesc 11 (asc "x") (asc "x") LSingular (TScalar 5);
                                        mk_fdesc 14 (asc "si") (asc "si") LSingular (TScalar 17)].
 Definition exS : schema := [exM; exIn].
-(* the same with a map and an enum field (outside the partial refinement theorem, inside the model) *)
+(* the same with maps and an enum field *)
 Definition exM2 := mk_mdesc (asc "M") (md_fields exM ++ [mk_fdesc 6 (asc "mu") (asc "mu") (LMap 13) (TScalar 5);
+                                                          mk_fdesc 7 (asc "mm") (asc "mm") (LMap 9) (TMsg (asc "I"));
                                                           mk_fdesc 8 (asc "e") (asc "e") LSingular (TScalar 14)]).
 Definition exS2 : schema := [exM2; exIn].
 Definition num (s : string) := JNum (asc s).
 Definition obj (l : list (string * json)) := JObj (map (fun kv => (asc (fst kv), snd kv)) l).
 
-(* non-vacuity of the refinement theorem: a document with scalar, zig-zag, nested, packed and repeated-message members *)
+(* non-vacuity of the refinement theorems: a document with scalar, zig-zag, nested, packed and repeated-message members *)
 Definition exDoc := obj [("a", num "150"); ("unknown", JArr [JNull; obj [("q", JNull)]]);
                          ("inF", obj [("s", JStr (asc "hi")); ("a", num "-1")]); ("si", num "-3");
                          ("l", JArr [num "1"; num "300"]); ("lm", JArr [obj [("a", num "1")]; obj [("x", num "2")]])]%string.
@@ -108,6 +119,21 @@ Example C09_refinement_hypotheses_satisfiable :
          (5, VList true [VScalar 5 1; VScalar 5 300]); (10, VList false [VMsg [(1, VScalar 5 1)]; VMsg [(4, VScalar 5 2)]])] /\
   j2p_machine false exS (asc "M") exDoc
   = OOk [8; 150; 1; 26; 15; 18; 2; 104; 105; 8; 255; 255; 255; 255; 255; 255; 255; 255; 255; 1; 112; 5; 42; 3; 1; 172; 2; 82; 2; 8; 1; 82; 2; 32; 2].
+Proof. vm_compute. repeat split; reflexivity. Qed.
+
+(* ... and one with maps (scalar and message values) *)
+Definition exDocMap := obj [("mu", obj [("7", num "1"); ("300", num "-2")]);
+                            ("mm", obj [("k", obj [("a", num "1")]); ("", obj [("s", JStr (asc "v"))])]); ("a", num "5")]%string.
+Example C09_refinement_with_maps :
+  nomap_schema exS2 = false /\
+  match denote_top true false exS2 (asc "M") exDocMap, j2p_machine false exS2 (asc "M") exDocMap with
+  | ROk m, OOk b => bytes_eqb b (encode_msg m) && (Nat.eqb (List.length m) 3) &&
+                    match decode_top exS2 (asc "M") b with Some m' => pval_eqv (VMsg m) (VMsg m') | None => false end
+  | _, _ => false
+  end = true /\
+  j2p_machine false exS2 (asc "M") exDocMap
+  = OOk [50; 4; 8; 7; 16; 1; 50; 14; 8; 172; 2; 16; 254; 255; 255; 255; 255; 255; 255; 255; 255; 1;
+         58; 7; 10; 1; 107; 18; 2; 8; 1; 58; 7; 10; 0; 18; 3; 18; 1; 118; 8; 5].
 Proof. vm_compute. repeat split; reflexivity. Qed.
 
 (* the recorded defects really contradict the specification (machine as coded vs. denotation), one witness each *)
